@@ -103,3 +103,15 @@ func FsPath(path string, flags FsFlags) (afero.Fs, error) {
 
 	return afero.NewBasePathFs(afero.NewOsFs(), path), nil
 }
+
+// cleanKeyPath reports whether the slash-separated path consists only of
+// segments an object key stored by this package can have: no empty, "." or
+// ".." segment.
+func cleanKeyPath(p string) bool {
+	for _, seg := range strings.Split(p, "/") {
+		if seg == "" || seg == "." || seg == ".." {
+			return false
+		}
+	}
+	return true
+}
